@@ -9,7 +9,12 @@ package main
 //     projector can name the style each element of a result was taken from (its owner);
 //   - the abstract attribute slots x / y are mapped onto the 18 concrete elements in 20 ways
 //     ("variants"; one StyleManager per variant, all driven by the same operations);
-//   - the registry is fingerprinted deeply before and after every call.
+//   - the registry is fingerprinted deeply before and after every call;
+//   - a copy taken by the abstract operation Clone lives next to the registry; it is NOT looked at when it is
+//     taken nor after a step (no accessor of it is called by the executor), only by the operations the
+//     behaviour addresses to it (OnClone; the wrapped operation Peek projects and fingerprints all of it);
+//   - an alias reference ("name:s2", "case:s2", "space:s2") becomes a string that is not a registered id
+//     but the display name of that style / its id in other letter case / its id with a blank.
 // Whether an owner is the right one, whether a registry may have changed, etc. is decided by
 // spec/StyleInh_Trace.tla.
 //
@@ -22,6 +27,7 @@ import (
 	"crypto/sha1"
 	"encoding/hex"
 	"encoding/json"
+	"encoding/xml"
 	"fmt"
 	"io"
 	"math/rand"
@@ -494,6 +500,7 @@ type siOpts struct {
 	keepPre   bool // predefined styles stay registered as bystanders (variant 0 only; they are part of the fingerprint)
 	tablePr   bool // styles also carry table properties (not judged; noise for the merge)
 	partial   bool // multi-attribute elements are only partly specified (see siPartial)
+	through   bool // an in-place edit re-points basedOn by writing through the existing w:basedOn object
 }
 
 func siMakeOpts(caseID int) siOpts {
@@ -518,7 +525,81 @@ func siMakeOpts(caseID int) siOpts {
 	o.keepPre = r.Intn(4) == 0
 	o.tablePr = r.Intn(4) == 0
 	o.partial = r.Intn(3) == 0
+	o.through = r.Intn(2) == 0
 	return o
+}
+
+// nameOf is the display name of style k (never equal to a style id of the behaviour).
+func (o siOpts) nameOf(k int) string { return "name of " + o.ids[k-1] }
+
+var siAliasKinds = []string{"name", "case", "space", "label"}
+
+// siLabels: what the library's own tables of predefined styles call a style id (GetPredefinedStyleNames for
+// styles with an even index, the Name column of GetPredefinedStyleConfigs for the others).
+func siLabel(id string, k int) string {
+	if k%2 == 0 {
+		return style.GetPredefinedStyleNames()[id]
+	}
+	for _, c := range style.GetPredefinedStyleConfigs() {
+		if c.StyleID == id {
+			return c.Name
+		}
+	}
+	return ""
+}
+
+
+// alias concretises an alias reference: a string that is NOT a style id of the behaviour but resembles
+// style k: its display name, its id in the other letter case (ids without letters, or whose other-case
+// form is an id too, have no such alias: the reference is then just another undefined id), its id followed by a
+// blank, the label the library's tables of predefined styles give that id (ids that are not predefined have none).
+func (o siOpts) alias(kind string, k int) string {
+	id := o.ids[k-1]
+	switch kind {
+	case "name":
+		return o.nameOf(k)
+	case "case":
+		sw := strings.Map(func(r rune) rune {
+			switch {
+			case r >= 'a' && r <= 'z':
+				return r - 'a' + 'A'
+			case r >= 'A' && r <= 'Z':
+				return r - 'A' + 'a'
+			}
+			return r
+		}, id)
+		ok := sw != id
+		for _, other := range o.ids {
+			if other == sw {
+				ok = false
+			}
+		}
+		if ok {
+			return sw
+		}
+		return "VfNoOtherCase/" + id
+	case "label":
+		l := siLabel(id, k)
+		for _, other := range o.ids {
+			if other == l {
+				l = ""
+			}
+		}
+		if l == "" {
+			return "VfNoLabel/" + id
+		}
+		return l
+	}
+	return id + " "
+}
+
+func siAliasOf(abs string) (string, int) {
+	if i := strings.IndexByte(abs, ':'); i > 0 {
+		if k := siK(abs[i+1:]); k > 0 {
+			return abs[:i], k
+		}
+	}
+	return "", 0
 }
 
 func (o siOpts) id(abs string) string {
@@ -530,6 +611,9 @@ func (o siOpts) id(abs string) string {
 	}
 	if k := siK(abs); k > 0 {
 		return o.ids[k-1]
+	}
+	if kind, k := siAliasOf(abs); k > 0 {
+		return o.alias(kind, k)
 	}
 	return "?" + abs
 }
@@ -544,6 +628,13 @@ func (o siOpts) abs(conc string) string {
 				return "ghost"
 			}
 			return fmt.Sprintf("s%d", i+1)
+		}
+	}
+	for _, kind := range siAliasKinds {
+		for k := 1; k <= siMaxK; k++ {
+			if o.alias(kind, k) == conc {
+				return fmt.Sprintf("%s:s%d", kind, k)
+			}
 		}
 	}
 	return "foreign"
@@ -562,6 +653,8 @@ type siChild struct {
 	caseID   int
 	opt      siOpts
 	sms      []*style.StyleManager
+	clones   []*style.StyleManager // the copy taken by Clone (one per variant), nil if none; never read between steps
+	names    bool                  // the behaviour refers to styles by display name: every style gets one
 	out      *os.File
 	pristine bool   // no step executed since reset
 	lastH    string // fingerprint after the previous step (nothing touches the registries in between)
@@ -569,11 +662,18 @@ type siChild struct {
 
 var siC *siChild
 
-func (c *siChild) reset(caseID int) {
+func (c *siChild) reset(caseID int, names, docs bool) {
 	c.caseID = caseID
 	c.opt = siMakeOpts(caseID)
+	if docs && c.opt.ids[1] == "Normal" {
+		// LoadStylesFromDocument adds the predefined Normal / Heading styles on its own: the behaviour's
+		// styles must not go by those ids
+		c.opt.ids = siIDSets[0]
+	}
+	c.names = names
 	siPartial = c.opt.partial
 	c.sms = c.fresh()
+	c.clones = nil
 	c.lastH = ""
 	c.pristine = true
 }
@@ -600,15 +700,15 @@ func (c *siChild) define(sm *style.StyleManager, v, k int, b string, x, y bool) 
 	id := o.ids[k-1]
 	var st *style.Style
 	if o.viaCreate {
-		st = sm.CreateCustomStyle(id, "name of "+id, style.StyleType(o.types[k-1]), o.id(b))
+		st = sm.CreateCustomStyle(id, o.nameOf(k), style.StyleType(o.types[k-1]), o.id(b))
 		st.CustomStyle = o.custom
-		if !o.withName {
+		if !o.withName && !c.names {
 			st.Name = nil
 		}
 	} else {
 		st = &style.Style{Type: o.types[k-1], StyleID: id, CustomStyle: o.custom}
-		if o.withName {
-			st.Name = &style.StyleName{Val: "name of " + id}
+		if o.withName || c.names {
+			st.Name = &style.StyleName{Val: o.nameOf(k)}
 		}
 		if b != "none" {
 			st.BasedOn = &style.BasedOn{Val: o.id(b)}
@@ -634,6 +734,32 @@ func (c *siChild) define(sm *style.StyleManager, v, k int, b string, x, y bool) 
 	if !o.viaCreate {
 		sm.AddStyle(st)
 	}
+}
+
+type siStylesDoc struct {
+	XMLName xml.Name       `xml:"w:styles"`
+	XmlnsW  string         `xml:"xmlns:w,attr"`
+	Styles  []*style.Style `xml:"w:style"`
+}
+
+// stylesXML writes the definitions (in their order) as a styles part for variant v.
+func (c *siChild) stylesXML(v int, defs []interface{}) ([]byte, error) {
+	tmp := style.NewStyleManager()
+	for _, s := range tmp.GetAllStyles() {
+		tmp.RemoveStyle(s.StyleID)
+	}
+	doc := siStylesDoc{XmlnsW: "http://schemas.openxmlformats.org/wordprocessingml/2006/main"}
+	for _, d := range defs {
+		m := Op(d.(map[string]interface{}))
+		k := siK(m.Str("s"))
+		c.define(tmp, v, k, m.Str("b"), m.Bool("x"), m.Bool("y"))
+		doc.Styles = append(doc.Styles, tmp.GetStyle(c.opt.ids[k-1]))
+	}
+	b, err := xml.Marshal(doc)
+	if err != nil {
+		return nil, err
+	}
+	return append([]byte(xml.Header), b...), nil
 }
 
 // project one registry to abstract terms: for every known id that is registered its based-on id
@@ -698,10 +824,12 @@ func (c *siChild) projectOne(sm *style.StyleManager, v int) []siRegRow {
 	return rows
 }
 
-func (c *siChild) project() []map[string]interface{} {
+func (c *siChild) project() []map[string]interface{} { return c.projectOf(c.sms) }
+
+func (c *siChild) projectOf(sms []*style.StyleManager) []map[string]interface{} {
 	var first []siRegRow
 	agree := true
-	for v, sm := range c.sms {
+	for v, sm := range sms {
 		rows := c.projectOne(sm, v)
 		if v == 0 {
 			first = rows
@@ -870,7 +998,14 @@ func siMergeRet(cur, r string) string {
 func siBlankEv(caseID, i int, op Op) Ev {
 	ev := Ev{"ev": "step", "case": caseID, "i": i, "op": op, "ret": "", "reg": []map[string]interface{}{},
 		"h0": "", "h1": "", "own": []map[string]interface{}{}}
-	switch op.Name() {
+	name := op.Name()
+	if name == "OnClone" {
+		// creg / ch: projection and deep fingerprint of the copy, taken only when the wrapped operation is
+		// Peek (seen); reg / h0 / h1 describe the source also on these steps
+		ev["seen"], ev["creg"], ev["ch"] = false, []map[string]interface{}{}, ""
+		name = siInner(op).Name()
+	}
+	switch name {
 	case "Info":
 		ev["b"] = ""
 	case "CloneSwap":
@@ -881,10 +1016,16 @@ func siBlankEv(caseID, i int, op Op) Ev {
 	return ev
 }
 
-// step executes one abstract operation on every variant registry and projects the outcome.
+// siInner is the operation an OnClone step addresses to the copy.
+func siInner(op Op) Op {
+	m, _ := op["o"].(map[string]interface{})
+	return Op(m)
+}
+
+// step executes one abstract operation and projects the outcome.  An operation wrapped in OnClone is
+// executed on the copy taken by the last Clone; the copy is looked at only if the wrapped operation is Peek.
 func (c *siChild) step(i int, op Op, quiet bool) Ev {
 	ev := siBlankEv(c.caseID, i, op)
-	o := c.opt
 	name := op.Name()
 	if !quiet {
 		if c.lastH == "" {
@@ -893,28 +1034,106 @@ func (c *siChild) step(i int, op Op, quiet bool) Ev {
 		ev["h0"] = c.lastH
 	}
 	c.lastH = ""
-	c.pristine = false
 	groups := siGroups{}
+	var ret, pmsg string
+	switch name {
+	case "Clone":
+		// the copy is taken and put aside untouched
+		cl := make([]*style.StyleManager, len(c.sms))
+		ret, pmsg = siEach(c.sms, func(v int, sm *style.StyleManager) string {
+			cl[v] = sm.Clone()
+			return "ok"
+		})
+		if ret == "ok" {
+			c.clones = cl
+		}
+	case "OnClone":
+		inner := siInner(op)
+		switch {
+		case c.clones == nil:
+			ret = "noclone"
+		case inner.Name() == "Peek":
+			ret = "ok"
+			if !quiet {
+				ev["seen"], ev["creg"], ev["ch"] = true, c.projectOf(c.clones), c.hashOf(c.clones)
+			}
+		case inner.Name() == "Load" || inner.Name() == "LoadXML" || inner.Name() == "CloneSwap" || inner.Name() == "CloneDrop":
+			ret = "unknown-op"
+		default:
+			ret, pmsg = c.exec(inner, &c.clones, ev, groups)
+		}
+	default:
+		ret, pmsg = c.exec(op, &c.sms, ev, groups)
+	}
+	c.pristine = false
+	ev["ret"] = ret
+	if pmsg != "" {
+		ev["pmsg"] = pmsg
+	}
+	if !quiet {
+		ev["own"] = groups.list()
+		ev["reg"] = c.project()
+		c.lastH = c.hashOf(c.sms)
+		ev["h1"] = c.lastH
+	}
+	return ev
+}
+
+func siEach(sms []*style.StyleManager, f func(v int, sm *style.StyleManager) string) (ret, pmsg string) {
+	for v, sm := range sms {
+		r, pm := guard(func() string { return f(v, sm) })
+		ret = siMergeRet(ret, r)
+		if pm != "" && pmsg == "" {
+			pmsg = pm
+		}
+	}
+	return
+}
+
+// exec executes one operation on every variant registry of *psms (the registry the behaviour works on, or the copy).
+func (c *siChild) exec(op Op, psms *[]*style.StyleManager, ev Ev, groups siGroups) (string, string) {
+	o := c.opt
+	name := op.Name()
 	ret, pmsg := "", ""
 	each := func(f func(v int, sm *style.StyleManager) string) {
-		for v, sm := range c.sms {
-			r, pm := guard(func() string { return f(v, sm) })
-			ret = siMergeRet(ret, r)
-			if pm != "" && pmsg == "" {
-				pmsg = pm
-			}
+		r, pm := siEach(*psms, f)
+		ret = siMergeRet(ret, r)
+		if pm != "" && pmsg == "" {
+			pmsg = pm
 		}
 	}
 	switch name {
 	case "Load":
 		if !c.pristine {
-			c.sms = c.fresh()
+			*psms = c.fresh()
 		}
 		defs, _ := op["defs"].([]interface{})
 		each(func(v int, sm *style.StyleManager) string {
 			for _, d := range defs {
 				m := Op(d.(map[string]interface{}))
 				c.define(sm, v, siK(m.Str("s")), m.Str("b"), m.Bool("x"), m.Bool("y"))
+			}
+			return "ok"
+		})
+	case "LoadXML":
+		// the registry comes from a styles part: the definitions are written as XML (the library's own
+		// element / attribute names) and handed to one of the three loaders
+		defs, _ := op["defs"].([]interface{})
+		each(func(v int, sm *style.StyleManager) string {
+			data, err := c.stylesXML(v, defs)
+			if err != nil {
+				panic("cannot write styles XML: " + err.Error())
+			}
+			switch op.Str("how") {
+			case "parse":
+				err = sm.ParseStylesFromXML(data)
+			case "merge":
+				err = sm.MergeStylesFromXML(data)
+			default:
+				err = sm.LoadStylesFromDocument(data)
+			}
+			if err != nil {
+				return "err"
 			}
 			return "ok"
 		})
@@ -926,7 +1145,7 @@ func (c *siChild) step(i int, op Op, quiet bool) Ev {
 	case "Create":
 		each(func(v int, sm *style.StyleManager) string {
 			k := siK(op.Str("s"))
-			sm.CreateCustomStyle(o.ids[k-1], "created "+o.ids[k-1], style.StyleType(o.types[k-1]), o.id(op.Str("b")))
+			sm.CreateCustomStyle(o.ids[k-1], o.nameOf(k), style.StyleType(o.types[k-1]), o.id(op.Str("b")))
 			return "ok"
 		})
 	case "RemoveStyle":
@@ -945,7 +1164,11 @@ func (c *siChild) step(i int, op Op, quiet bool) Ev {
 			if b := op.Str("b"); b == "none" {
 				st.BasedOn = nil
 			} else if b != "keep" {
-				st.BasedOn = &style.BasedOn{Val: o.id(b)}
+				if o.through && st.BasedOn != nil {
+					st.BasedOn.Val = o.id(b)
+				} else {
+					st.BasedOn = &style.BasedOn{Val: o.id(b)}
+				}
 			}
 			for ai, a := range siAttrs {
 				sl := siSlot(v, ai)
@@ -1010,6 +1233,13 @@ func (c *siChild) step(i int, op Op, quiet bool) Ev {
 			for _, t := range []style.StyleType{style.StyleTypeParagraph, style.StyleTypeCharacter, style.StyleTypeTable, style.StyleTypeNumbering} {
 				n += len(sm.GetStylesByType(t))
 			}
+			// the library's tables of predefined styles are listings too; what they return is the caller's
+			cfgs, nm := style.GetPredefinedStyleConfigs(), style.GetPredefinedStyleNames()
+			n += len(cfgs) + len(nm)
+			siMutate(reflect.ValueOf(cfgs))
+			for k := range nm {
+				nm[k] += "~mut"
+			}
 			_ = n
 			return "ok"
 		})
@@ -1020,18 +1250,18 @@ func (c *siChild) step(i int, op Op, quiet bool) Ev {
 			return "ok"
 		})
 	case "CloneSwap":
-		clones := make([]*style.StyleManager, len(c.sms))
+		clones := make([]*style.StyleManager, len(*psms))
 		each(func(v int, sm *style.StyleManager) string {
 			clones[v] = sm.Clone()
 			return "ok"
 		})
 		if ret == "ok" {
 			ev["c0"] = c.hashOf(clones)
-			for _, sm := range c.sms {
+			for _, sm := range *psms {
 				c.siScribble(sm)
 			}
 			ev["c1"] = c.hashOf(clones)
-			c.sms = clones
+			*psms = clones
 		}
 	case "MutRes":
 		id := o.id(op.Str("q"))
@@ -1057,17 +1287,7 @@ func (c *siChild) step(i int, op Op, quiet bool) Ev {
 	default:
 		ret = "unknown-op"
 	}
-	ev["ret"] = ret
-	if pmsg != "" {
-		ev["pmsg"] = pmsg
-	}
-	if !quiet {
-		ev["own"] = groups.list()
-		ev["reg"] = c.project()
-		c.lastH = c.hashOf(c.sms)
-		ev["h1"] = c.lastH
-	}
-	return ev
+	return ret, pmsg
 }
 
 // siCmd is the supervisor -> child protocol, carried in Case.Extra.  One command executes a whole
@@ -1110,9 +1330,11 @@ func runStyleInhChild(c Case, emit Emitter) {
 	for _, i := range cmd.Skip {
 		skip[i] = true
 	}
-	siC.reset(c.ID)
+	raw, _ := json.Marshal(c.Steps)
+	names := bytes.Contains(raw, []byte(`"name:`))
+	siC.reset(c.ID, names, bytes.Contains(raw, []byte(`"how":"doc"`)))
 	for j := 0; j < cmd.From && j < len(c.Steps); j++ {
-		if siMutating(c.Steps[j].Name()) {
+		if siMutating(c.Steps[j]) {
 			siC.step(j, c.Steps[j], true)
 		}
 	}
@@ -1271,10 +1493,13 @@ func (s *siSup) lastWords() string {
 	return t
 }
 
-func siMutating(name string) bool {
-	switch name {
-	case "Load", "AddStyle", "RemoveStyle", "Create", "Edit", "CloneSwap":
+// siMutating: steps a fresh child re-runs quietly to get back to the state before step From
+func siMutating(op Op) bool {
+	switch op.Name() {
+	case "Load", "LoadXML", "AddStyle", "RemoveStyle", "Create", "Edit", "CloneSwap", "Clone":
 		return true
+	case "OnClone":
+		return siAbstractMutator(siInner(op).Name())
 	}
 	return false
 }
@@ -1283,10 +1508,18 @@ func siResolver(name string) bool { return name == "Resolve" || name == "ToXML" 
 
 func siAbstractMutator(name string) bool {
 	switch name {
-	case "Load", "AddStyle", "RemoveStyle", "Create", "Edit":
+	case "Load", "LoadXML", "AddStyle", "RemoveStyle", "Create", "Edit":
 		return true
 	}
 	return false
+}
+
+// siSide tells which registry a step is addressed to and what is done to it.
+func siSide(op Op) (string, Op) {
+	if op.Name() == "OnClone" {
+		return "copy", siInner(op)
+	}
+	return "src", op
 }
 
 var siDeadKeys = map[string]bool{}
@@ -1380,12 +1613,19 @@ func runStyleInh(c Case, emit Emitter) {
 			if k, ok := keyOf[i]; ok {
 				siDeadKeys[k] = true
 			}
-			if siResolver(op.Name()) {
+			if side, in := siSide(op); siResolver(in.Name()) {
 				for j := i + 1; j < len(c.Steps); j++ {
-					if siAbstractMutator(c.Steps[j].Name()) {
+					sj, inj := siSide(c.Steps[j])
+					if sj != side {
+						if side == "copy" && inj.Name() == "Clone" {
+							break
+						}
+						continue
+					}
+					if siAbstractMutator(inj.Name()) {
 						break
 					}
-					if siResolver(c.Steps[j].Name()) && c.Steps[j].Str("q") == op.Str("q") {
+					if siResolver(inj.Name()) && inj.Str("q") == in.Str("q") {
 						skip = append(skip, j)
 					}
 				}
